@@ -352,15 +352,32 @@ func parenthesize(file *ast.File) {
 				return paren(x)
 			}
 		}
+		// The arguments behind a type that ends in a function type
+		// without results would be read as its results: "[]func()(nil)".
+		if _, ok := typeNameAtEnd(x).(*ast.FuncType); ok {
+			return paren(x)
+		}
 		return x
 	}
-	// operand of a selector, index, slice or type assertion. What
-	// follows a type that ends in a type would be read as part of that
-	// one: "[]int.f" is a slice of "int.f".
-	primary := func(x ast.Expr) ast.Expr {
+	// operand of a selector or type assertion (index is false), of an
+	// index, slice or instantiation (index is true). What follows a type
+	// that ends in a type name would be read as part of that name:
+	// "[]int.f" is a slice of "int.f", "[]pkg.T[0]" a slice of an
+	// instantiated type. A type that ends otherwise is left alone, as
+	// is the code of the file, which was read from text that is right
+	// without them.
+	primary := func(x ast.Expr, index bool) ast.Expr {
 		switch x.(type) {
 		case *ast.ArrayType, *ast.MapType, *ast.ChanType, *ast.FuncType:
-			return paren(x)
+			switch typeNameAtEnd(x).(type) {
+			case *ast.Ident:
+				return paren(x)
+			case *ast.SelectorExpr, *ast.FuncType:
+				if index {
+					return paren(x)
+				}
+			}
+			return x
 		}
 		return callee(x)
 	}
@@ -380,15 +397,15 @@ func parenthesize(file *ast.File) {
 		case *ast.StarExpr:
 			n.X = unary(n.X)
 		case *ast.SelectorExpr:
-			n.X = primary(n.X)
+			n.X = primary(n.X, false)
 		case *ast.IndexExpr:
-			n.X = primary(n.X)
+			n.X = primary(n.X, true)
 		case *ast.IndexListExpr:
-			n.X = primary(n.X)
+			n.X = primary(n.X, true)
 		case *ast.SliceExpr:
-			n.X = primary(n.X)
+			n.X = primary(n.X, true)
 		case *ast.TypeAssertExpr:
-			n.X = primary(n.X)
+			n.X = primary(n.X, false)
 		case *ast.CallExpr:
 			n.Fun = callee(n.Fun)
 		case *ast.ChanType:
@@ -398,6 +415,37 @@ func parenthesize(file *ast.File) {
 		}
 		return true
 	})
+}
+
+// typeNameAtEnd returns what the text of a type ends in, if that can take in
+// what follows: a type name (an identifier or a qualified identifier), or a
+// function type without results. It returns nil for a type that ends in a
+// bracket, a brace or the parenthesis of a result list.
+func typeNameAtEnd(x ast.Expr) ast.Expr {
+	switch x := x.(type) {
+	case *ast.ArrayType:
+		return typeNameAtEnd(x.Elt)
+	case *ast.MapType:
+		return typeNameAtEnd(x.Value)
+	case *ast.ChanType:
+		return typeNameAtEnd(x.Value)
+	case *ast.StarExpr:
+		return typeNameAtEnd(x.X)
+	case *ast.FuncType:
+		// A single unnamed result is printed without parentheses.
+		if r := x.Results; r == nil || len(r.List) == 0 {
+			return x
+		} else if len(r.List) == 1 && len(r.List[0].Names) == 0 {
+			return typeNameAtEnd(r.List[0].Type)
+		}
+	case *ast.Ident:
+		return x
+	case *ast.SelectorExpr:
+		if _, ok := x.X.(*ast.Ident); ok {
+			return x
+		}
+	}
+	return nil
 }
 
 type _fileMatchKey struct{}
